@@ -129,7 +129,7 @@ def universe(tier):
     hosts, paths, tails = (HOSTS_Q, PATHS_Q, TAILS) if tier == "quick" else (HOSTS_T, PATHS_T, TAILS_T)
     urls = []
     for scheme in ("http", "https"):
-        for port in ("", ":8080"):
+        for port in ("", ":8080", ":80"):
             for h in hosts:
                 for p in paths:
                     for t in tails:
